@@ -181,6 +181,15 @@ def eval_compu(case, res: core.ShardResult | None = None) -> list:
                 # value the text is encoded as (COMPU-INVERSE-VALUE, else the lower limit)
                 if rc.p2i(rc.i2p(v).values[0]).exact() != v:
                     continue
+            elif ir.get("cat") in ("LINEAR", "SCALE-LINEAR"):
+                # judged point-wise (below: the reference's inverse of the observed physical value is exactly {v});
+                # methods the ODX rules call non-invertible legitimately refuse to encode at all
+                if len(rc.segs) > 1 and not rc.odx_invertible():
+                    continue
+                # (integer physical type: slopes below one quantise, C07's domain incl. its known finding on
+                # OPEN limits after rounding; plateaus with a COMPU-INVERSE-VALUE are fine)
+                if rc.pt not in refcompu.FLOAT_TYPES and any(0 < abs(sg.slope) < 1 for sg in rc.segs):
+                    continue
             elif not rc.roundtrip_exact(v):
                 continue
         except Exception:
@@ -255,7 +264,7 @@ def run_shard(spec, seed, tier):
                 else:
                     out.append(f)
             return out
-        n = (400 if spec[1] in ("RAT-FUNC", "SCALE-RAT-FUNC") else 150) if tier == "quick" else 3000
+        n = (400 if spec[1] in ("RAT-FUNC", "SCALE-RAT-FUNC", "SCALE-LINEAR") else 150) if tier == "quick" else 3000
         found = core.hyp_search(strat, cbody, seed, n, shrink_budget_s=30)
         if found:
             res.failures.extend(found)
